@@ -8,7 +8,7 @@ from engine import lib, scen, xforms, zz9enc
 from engine import survey as S
 from engine.cmp import close
 from engine.oracle import apparent_dims
-from engine.runner import SubCheck
+from engine.runner import SubCheck, fuzz_subcheck
 
 PROPERTY = "C19"
 RULE = (
@@ -265,4 +265,6 @@ def judge(case, rec):
 
 SUBCHECKS = [
     SubCheck("spellings", case_st(), judge, quick=3200, thorough=40000),
+    # coverage-guided tier (thorough only): atheris drives the same strategy and judge
+    fuzz_subcheck("fuzz-spellings", "spellings", quick_runs=0, thorough_runs=12000),
 ]
